@@ -165,6 +165,40 @@ def strategy(tier):
     return case_strategy()
 
 
+def enumerate_cases(tier):
+    """systematic part: every operator between a fixed-point leaf (register,
+    local, map variable) and an integer or decimal constant, both ways round,
+    stored into a fixed-point and into an integer destination"""
+    leaves = [
+        ([], [{"no": 2, "view": "x"}], ["reg", "x", 2], "r2"),
+        ([{"name": "v0", "kind": "local", "fmt": "x"}], [], ["var", "v0"],
+         "v0"),
+        ([{"name": "v0", "kind": "map", "fmt": "x"}], [], ["var", "v0"],
+         "v0"),
+    ]
+    consts = [["const", 3], ["const", -9], ["const", 1000], ["dec", 29000],
+              ["dec", -250000], ["dec", 7]]
+    values = [0, 100000, 150000, 234779, -161257, 29000, 7, 50 * BASE + 1]
+    for decls, regs, leaf, name in leaves:
+        for dst in (leaf, ["var", "d"]):
+            for dfmt in (("x",) if dst is leaf else ("x", "q", "i")):
+                ds = list(decls)
+                if dst is not leaf:
+                    ds = ds + [{"name": "d", "kind": "local", "fmt": dfmt}]
+                for op in OPS:
+                    for c in consts:
+                        for swap in (False, True):
+                            expr = ["bin", op, c, leaf] if swap \
+                                else ["bin", op, leaf, c]
+                            vectors = [dict({name: v}, **(
+                                {"d": 0} if dst is not leaf else {}))
+                                for v in values[:6]]
+                            yield {"decls": ds, "regs": regs,
+                                   "mode": "assign", "dst": dst,
+                                   "expr": expr, "vectors": vectors,
+                                   "py": [29000, 7]}
+
+
 # ------------------------------------------------------------------ oracle
 
 class Unjudged(Exception):
